@@ -35,6 +35,7 @@ type kase struct {
 	Width   int           `json:"width,omitempty"` // FASTA wrap width of the variant
 	Enc     int           `json:"enc,omitempty"`
 	QID     bool          `json:"qid,omitempty"`
+	QT      bool          `json:"qtemplate,omitempty"` // FASTA read into a quality-carrying template (letters appended line by line)
 	BedTyp  int           `json:"bedtyp,omitempty"`
 	Bed     []featgen.Bed `json:"bed,omitempty"`
 	Gff     []featgen.Gff `json:"gff,omitempty"`
@@ -134,10 +135,14 @@ func check(c *enum.Ctx, k kase) {
 			}
 			variant := render(splitLines(text), k.L)
 			var got []seqgen.Rec
+			comp := seqgen.NewCompanion(k.Format) // a second reader over another layout, advanced alternately
 			if k.Format == "fasta" {
-				got, _, err = seqgen.ReadAll(fasta.NewReader(bytes.NewReader(variant), seqgen.Template(false, false, enc)), false, len(recs)+2)
+				got, _, err = seqgen.ReadAllWith(fasta.NewReader(bytes.NewReader(variant), seqgen.Template(k.QT, false, alphabet.Sanger)), comp, false, len(recs)+2)
 			} else {
-				got, _, err = seqgen.ReadAll(fastq.NewReader(bytes.NewReader(variant), seqgen.Template(true, false, enc)), true, len(recs)+2)
+				got, _, err = seqgen.ReadAllWith(fastq.NewReader(bytes.NewReader(variant), seqgen.Template(true, false, enc)), comp, true, len(recs)+2)
+			}
+			if msg := comp.Verdict(); msg != "" {
+				fail("interference/"+layoutClass(k.L), "layout %s: %s", enum.J(k.L), msg)
 			}
 			if err != nil {
 				fail("read-error/"+layoutClass(k.L), "layout %s of a valid file: %v (text %q)", enum.J(k.L), err, clip(variant))
@@ -357,6 +362,14 @@ func run(c *enum.Ctx) {
 	for _, gl := range [][]featgen.Gff{{f1}, {f2}, {f1, f2}, {rg}, {f1, rg}, {sq}, {f1, sq}, {sq, f2}, {rg, sq, f1, sq}} {
 		for _, l := range layouts(0, nil, false, false) {
 			cases = append(cases, kase{Format: "gff", Gff: gl, L: l})
+		}
+	}
+	// every FASTA case again with a quality-carrying template (its letters arrive through AppendLetters,
+	// once per physical line)
+	for _, k := range cases[:len(cases):len(cases)] {
+		if k.Format == "fasta" {
+			k.QT = true
+			cases = append(cases, k)
 		}
 	}
 	c.Set("cases", len(cases))
